@@ -440,14 +440,14 @@ def maybe_moved(rnd, scn, p=0.1):
     return scn
 
 
-def add_lifecycles(rnd, scn, p_derived=0.08, p_entry=0.12, p_used=0.06, p_prior=0.0, p_sibling=0.05, p_metres=0.0):
+def add_lifecycles(rnd, scn, p_derived=0.08, p_entry=0.12, p_used=0.06, p_prior=0.0, p_sibling=0.05, p_metres=0.0, p_reoriented=0.0):
     """Object life cycles every Engine-A workload shares (drawn from their own sub-stream, so the
     scenario a property's generator produced is left as it is): the Device handed to the solver is
     derived from the meshed one (copy / deep copy / pickled copy / identity transform + re-mesh), and
     the run is started through the convenience entry point tdgl.solve() instead of TDGLSolver()."""
     if isinstance(scn, dict) and isinstance(scn.get("base"), dict):
         # groups (C11): the life cycle belongs to the physics scenario every member executes
-        add_lifecycles(rnd, scn["base"], p_derived, p_entry, p_used, p_prior, p_sibling, p_metres)
+        add_lifecycles(rnd, scn["base"], p_derived, p_entry, p_used, p_prior, p_sibling, p_metres, p_reoriented)
         return scn
     if not isinstance(scn, dict) or scn.get("physics") != "real" or "device" not in scn:
         return scn
@@ -484,6 +484,8 @@ def add_lifecycles(rnd, scn, p_derived=0.08, p_entry=0.12, p_used=0.06, p_prior=
         scn["options_prior_use"] = pr
     if rnd.random() < p_metres and scn["device"]["length_units"] != "m" and not scn.get("reload_phase"):
         in_metres(scn)
+    if rnd.random() < p_reoriented and not any(scn.get(k) for k in ("device_history", "device_moved", "device_restored", "device_derived", "reload_phase", "seed_phase")):
+        scn["mesh_reoriented"] = {"seed": rnd.randrange(10**6), "frac": rnd.choice([0.1, 0.3, 0.5, 1.0])}
     if rnd.random() < p_sibling and not scn.get("sibling"):
         # a second solver alive on the same Device with another applied field (see maybe_sibling)
         maybe_sibling(rnd, scn, 1.0)
